@@ -155,6 +155,7 @@ pub(crate) fn on_return(action: &crate::Action, ret: &crate::Result<()>) {
 }
 
 pub(crate) fn on_gen_tick() {
+    TICKS.fetch_add(1, Ordering::SeqCst);
     LAST_GEN.with(|g| *g.borrow_mut() = ("tick".to_string(), String::new()));
 }
 
@@ -174,6 +175,22 @@ pub(crate) fn inflight_dec() {
 /// number of queue sends not yet executed plus spawned internal jobs not yet finished
 pub fn inflight() -> i64 {
     INFLIGHT.load(Ordering::SeqCst)
+}
+
+/// decrements the counter when dropped, i.e. also when the job it stands for panics
+pub(crate) struct InflightGuard;
+
+impl Drop for InflightGuard {
+    fn drop(&mut self) {
+        inflight_dec();
+    }
+}
+
+static TICKS: AtomicI64 = AtomicI64::new(0);
+
+/// ticks generated since the last reset
+pub fn ticks() -> i64 {
+    TICKS.load(Ordering::SeqCst)
 }
 
 // ------------------------------------------------------------------------------------------
@@ -376,6 +393,7 @@ pub fn reset() {
     jobs_clear();
     clock_off();
     INFLIGHT.store(0, Ordering::SeqCst);
+    TICKS.store(0, Ordering::SeqCst);
     let mut log = LOG.lock().unwrap();
     log.on = false;
     log.seq = 0;
